@@ -27,11 +27,12 @@ def gen_case(rng, tier):
     prof = B.default_profile(rng)
     prof["w_op"] = max(prof["w_op"], 1)
     prof["l3_kernels"] = True
+    prof["multiblock"] = rng.random() < 0.2  # functions with several blocks (cf.br / cf.cond_br)
     ast = B.BufGen(rng, prof).program()
     n = rng.choice([2, 2, 3, 3, 4, 5])
     envs = [B.gen_env(rng, n_cores=n) for _ in range(K_ENVS[tier])]
     envs[0]["stall"] = False
-    return {"ast": ast, "cores": n, "envs": envs, "pin": rng.random() < 0.2}
+    return {"ast": ast, "cores": n, "envs": envs, "pin": rng.random() < 0.2 and not prof["multiblock"]}
 
 
 def roles_of(ast):
@@ -47,6 +48,8 @@ def roles_of(ast):
                 walk(s.get(key, []))
 
     walk(ast["body"])
+    for b in ast.get("blocks", []):
+        walk(b)
     return out
 
 
@@ -141,7 +144,13 @@ def shrink(case):
     if case["cores"] > 2:
         yield dict(case, cores=case["cores"] - 1, envs=[dict(e, cores=case["cores"] - 1) for e in case["envs"]])
     for nb in B.shrink_body(case["ast"]["body"]):
-        yield dict(case, ast={"body": nb})
+        yield dict(case, ast=dict(case["ast"], body=nb))
+    if case["ast"].get("blocks"):
+        b1, b2 = case["ast"]["blocks"]
+        for nb in B.shrink_body(b1):
+            yield dict(case, ast=dict(case["ast"], blocks=[nb, b2]))
+        for nb in B.shrink_body(b2):
+            yield dict(case, ast=dict(case["ast"], blocks=[b1, nb]))
     if case.get("pin"):
         yield dict(case, pin=False)
 
